@@ -433,6 +433,30 @@ def _cname(call):
     return None
 
 
+def alpha_terms(terms):
+    """Rename the bound variables of every `repeat` term to positional placeholders (`<elem>` for a single loop
+    variable, `<v0>`, `<v1>` for tuple targets) so that comparisons do not depend on how a loop variable is spelled."""
+    import re
+
+    def sub(x, pats):
+        if isinstance(x, str):
+            for rx, new in pats:
+                x = rx.sub(new, x)
+            return x
+        if isinstance(x, tuple):
+            if x and x[0] == "repeat" and len(x) == 4:
+                vs = tuple(x[2])
+                names = ["<elem>"] if len(vs) == 1 else ["<v%d>" % i for i in range(len(vs))]
+                inner = pats + [(re.compile(r"(?<![\w.])%s\b" % re.escape(v)), n) for v, n in zip(vs, names)]
+                return ("repeat", sub(x[1], pats), tuple(names), sub(x[3], inner))
+            return tuple([x[0]] + [sub(y, pats) for y in x[1:]]) if x and isinstance(x[0], str) else tuple(sub(y, pats) for y in x)
+        if isinstance(x, list):
+            return [sub(y, pats) for y in x]
+        return x
+
+    return sub(list(terms), [])
+
+
 def fmt_terms(terms, depth=0):
     out = []
     for t in terms:
